@@ -17,7 +17,7 @@ _bd = os.environ.get('VERIF_BUILD_DIR')
 if _bd:
     assert optree.__file__.startswith(_bd) and optree._C.__file__.startswith(_bd), (optree.__file__, optree._C.__file__, _bd)
 
-KINT, KSTR, KFLT, KORD, KUNORD, KNEST, KTIE = 0, 1, 2, 3, 4, 5, 6
+KINT, KSTR, KFLT, KORD, KUNORD, KNEST, KTIE, KTUP = 0, 1, 2, 3, 4, 5, 6, 7
 NCUSTOM, NLEAF, NNONE, NTUPLE, NLIST, NDICT, NNT, NODICT, NDDICT, NDEQUE, NSS = range(11)
 KIND_NAME = {NCUSTOM: 'custom', NLEAF: 'leaf', NNONE: 'none', NTUPLE: 'tuple', NLIST: 'list', NDICT: 'dict',
              NNT: 'nt', NODICT: 'odict', NDDICT: 'ddict', NDEQUE: 'deque', NSS: 'ss'}
@@ -211,6 +211,8 @@ def mk_key(k):
         return Wrap.AOrd(v)
     if ty == KTIE:
         return KTie(v)
+    if ty == KTUP:
+        return (v // 2,) if v % 2 == 0 else (v // 2, 0)
     raise ValueError(k)
 
 
@@ -232,6 +234,10 @@ def proj_key(o):
         return [KNEST, o.v]
     if t is KTie:
         return [KTIE, o.v]
+    if t is tuple and len(o) == 1 and type(o[0]) is int and o[0] >= 0:
+        return [KTUP, 2 * o[0]]
+    if t is tuple and len(o) == 2 and type(o[0]) is int and o[0] >= 0 and o[1] == 0 and type(o[1]) is int:
+        return [KTUP, 2 * o[0] + 1]
     raise ValueError(f'key outside the universe: {o!r}')
 
 
